@@ -442,6 +442,12 @@ class World:
                   f'{{ reveal_strlit({lit}); reveal_strlit("/"); reveal_strlit({rust_str(pkg)}); reveal_strlit("."); reveal_strlit({rust_str(sname)}); }}\n')
         out.w('} // verus!\n}\n')
         self.generated_type_urls = n
+        # closed world: every `impl TypeUrl for` in the file must have been read as a literal (impls produced by a macro
+        # are invisible here; zero obligations would be a vacuous pass)
+        textual = len(re.findall(r'impl\s+(?:crate::)?(?:traits::)?TypeUrl\s+for\b', open(tup).read()))
+        if n == 0 or textual != n or 'macro_rules!' in open(tup).read():
+            raise Inconclusive(f'unsupported: {tu["file"]} registers type URLs in a way the extractor cannot read '
+                               f'({n} literal impls read, {textual} `impl TypeUrl for` in the text, macro: {"macro_rules!" in open(tup).read()})')
 
     def _emit_wire_compat(self, out):
         """C20, wire compatibility: for every prost message (struct) and oneof (enum) of the bindings that an
